@@ -75,8 +75,11 @@ def certify_records(ctx, recs, extra_discs=None, max_bits=400, max_degree=24, wo
         discs = S.discs_of(r)
         if extra_discs: discs = discs + extra_discs(rec)
         tgt = min_radius_log2(discs) - slack
-        if tgt < -max_bits:
-            rec["why"] = "precision-cap"; tgt = -max_bits
+        if rec.get("target_override") is not None:
+            tgt = rec["target_override"]
+        mb = rec.get("max_bits", max_bits)
+        if tgt < -mb:
+            rec["why"] = "precision-cap"; tgt = -mb
         rec["target"] = tgt
         todo.append(i)
     # group by target so certify_all can be called with one resolution per group
